@@ -66,12 +66,14 @@ inductive NonClassKind where
   | function | typevar | module | instance
   deriving Repr, DecidableEq
 
-/-- what `getattr(module, class_name)` finds; for a class: whether `issubclass(_, SubclassJSONSerializer)` and
-whether `JSONSerializableTypeRegistry().get_deserializer(_)` is set -/
+/-- what `getattr(module, class_name)` finds; for a class: whether `issubclass(_, SubclassJSONSerializer)`, whether
+`JSONSerializableTypeRegistry().get_deserializer(_)` is set (registration is by EXACT type), and whether the class
+implements `_from_json` (`impl = false`: it only inherits `SubclassJSONSerializer._from_json`, which raises
+NotImplementedError — the abstract base itself, or an abstract intermediate class) -/
 inductive AttrKind where
   | missing                                   -- AttributeError
   | nonClass (k : NonClassKind)
-  | cls (c : Cls) (ser reg : Bool)
+  | cls (c : Cls) (ser reg impl : Bool)
   deriving Repr, DecidableEq
 
 structure Env where
@@ -89,7 +91,7 @@ inductive DocErr where
 
 /-- exceptions outside the documented hierarchy -/
 inductive Exc where
-  | attributeError | valueError | typeError | importError
+  | attributeError | valueError | typeError | importError | notImplementedError
   deriving Repr, DecidableEq
 
 inductive Via where
@@ -115,13 +117,17 @@ structure Quirks where
   nonClassAttr : Bool
   /-- F-C19-5: an ImportError that is not ModuleNotFoundError is not caught -/
   importErr : Bool
+  /-- F-C19-6: a `SubclassJSONSerializer` class that does not implement `_from_json` (the abstract base itself) is
+  dispatched to and its NotImplementedError escapes -/
+  abstractSerializer : Bool
   deriving Repr, DecidableEq
 
-def Quirks.none : Quirks := ⟨false, false, false, false, false⟩
-def Quirks.all : Quirks := ⟨true, true, true, true, true⟩
-/-- the code as it is at this commit: every escaping exception is still there. The correspondence runs the model
-under this setting (`model=`) and under `Quirks.none` (`model_fixed=`); set this to `Quirks.none` in the commit
-that applies fixes/C19_tag_resolution.diff and moves the findings to `fixed`. -/
+def Quirks.none : Quirks := ⟨false, false, false, false, false, false⟩
+def Quirks.all : Quirks := ⟨true, true, true, true, true, true⟩
+/-- the code as it is at this commit. F-C19-1..5 are repaired (fixes/C19_tag_resolution.diff); F-C19-6 (abstract
+serializer class) is still there. The correspondence runs the model under this setting (`model=`) and under
+`Quirks.none` (`model_fixed=`); set this to `Quirks.none` in the commit that applies fixes/C19_abstract_base.diff and
+moves F-C19-6 to `fixed`. -/
 def Quirks.current : Quirks := Quirks.none
 
 /-- Python truthiness of a JSON value (`if not fully_qualified_class_name`) -/
@@ -165,8 +171,11 @@ def resolve (q : Quirks) (env : Env) (tag : Option Json) : Outcome :=
             match env.getattr m c with
             | .missing => .err .classNotFound
             | .nonClass _ => if q.nonClassAttr then .escape .typeError else .err .classNotFound
-            | .cls k ser reg =>
-              if ser then .dispatch k .fromJson
+            | .cls k ser reg impl =>
+              if ser then
+                if impl then .dispatch k .fromJson
+                else if q.abstractSerializer then .escape .notImplementedError
+                else .err .notDeserializable
               else if reg then .dispatch k .registry
               else .err .notDeserializable
       | _ => if q.nonStringTag then .escape .attributeError else .err .invalidFormat
@@ -189,7 +198,8 @@ def Expect.accepts : Expect → Outcome → Bool
 a module that is not there → UnknownModuleError; an attribute that is not there → ClassNotFoundError; a class that
 is neither a `SubclassJSONSerializer` nor registered → ClassNotDeserializableError; a deserialisable class → that
 class is dispatched to; everything else (wrong JSON type, empty string, module names importlib rejects, modules
-that fail while importing, attributes that are not classes) → some documented error. -/
+that fail while importing, attributes that are not classes, serializer classes that do not implement `_from_json`)
+→ some documented error. -/
 def spec (env : Env) (tag : Option Json) : Expect :=
   match tag with
   | none | some .null => .exactly (.err .missingType)
@@ -204,8 +214,8 @@ def spec (env : Env) (tag : Option Json) : Expect :=
           match env.getattr m c with
           | .missing => .exactly (.err .classNotFound)
           | .nonClass _ => .anyDocumented
-          | .cls k ser reg =>
-            if ser then .exactly (.dispatch k .fromJson)
+          | .cls k ser reg impl =>
+            if ser then (if impl then .exactly (.dispatch k .fromJson) else .anyDocumented)
             else if reg then .exactly (.dispatch k .registry)
             else .exactly (.err .notDeserializable)
         | _ => .anyDocumented
@@ -236,11 +246,22 @@ def trigNonClass (env : Env) (tag : Option Json) : Bool :=
     | none => false
   | _ => false
 
+/-- the tag names a `SubclassJSONSerializer` class that does not implement `_from_json` -/
+def trigAbstract (env : Env) (tag : Option Json) : Bool :=
+  match tag with
+  | some (.str s) =>
+    if s = "" then false else
+    match rsplit s with
+    | some (m, c) =>
+      env.importModule m == .ok && (match env.getattr m c with | .cls _ true _ false => true | _ => false)
+    | none => false
+  | _ => false
+
 /-- the input hits a quirk that is switched on in `q` -/
 def trigger (q : Quirks) (env : Env) (tag : Option Json) : Bool :=
   (q.nonStringTag && trigNonString tag) || (q.importValueErr && trigImportValueErr env tag) ||
   (q.importTypeErr && trigImportTypeErr env tag) || (q.nonClassAttr && trigNonClass env tag) ||
-  (q.importErr && trigImportErr env tag)
+  (q.importErr && trigImportErr env tag) || (q.abstractSerializer && trigAbstract env tag)
 
 /-! ### Serialisation and deserialisation (C18) -/
 
@@ -334,7 +355,7 @@ end
 def resolvable (env : Env) (c : Cls) (ser : Bool) : Bool :=
   !c.name.toList.contains '.' && env.importModule c.module == .ok &&
   (match env.getattr c.module c.name with
-   | .cls c' ser' reg' => c' == c && ser' == ser && (ser || reg')
+   | .cls c' ser' reg' impl' => c' == c && ser' == ser && (if ser then impl' else reg')
    | _ => false)
 
 mutual
